@@ -142,6 +142,7 @@ func runC16(c *Ctx) {
 	}
 	c16Flags(c)
 	c16Automaton(c)
+	c16ThresholdsPositive(c)
 }
 
 func c16Thorough(c *Ctx) {
@@ -733,4 +734,87 @@ func sameValue(a, b ssa.Value) bool {
 	fa, ok1 := a.(*ssa.Field)
 	fb, ok2 := b.(*ssa.Field)
 	return ok1 && ok2 && fa.Field == fb.Field && sameValue(fa.X, fb.X)
+}
+
+// c16ThresholdsPositive (R3): the thresholds the automaton compares with are at least 1.
+// The counters are incremented before they are compared (`count++; if count == threshold`), so a threshold of 0 - what
+// a configuration that omits the field parses to - is never reached with `==`: the host would never change state.
+// Clause: every value stored into healthChecker.healthyThreshold / unhealthyThreshold is a positive constant, or a value
+// known to be non-zero on the edge it arrives by (phi alternatives judged at their predecessors).
+func c16ThresholdsPositive(c *Ctx) {
+	pkg := "pkg/upstream/healthcheck"
+	n := 0
+	var positive func(v ssa.Value, at *ssa.BasicBlock, d int) bool
+	positive = func(v ssa.Value, at *ssa.BasicBlock, d int) bool {
+		if d > 5 {
+			return false
+		}
+		if k, ok := constInt(v); ok {
+			return k >= 1
+		}
+		for _, g := range guardsAt(at) {
+			bo, ok := g.Cond.(*ssa.BinOp)
+			if !ok {
+				continue
+			}
+			var other ssa.Value
+			if sameValue(bo.X, v) {
+				other = bo.Y
+			} else if sameValue(bo.Y, v) {
+				other = bo.X
+			} else {
+				continue
+			}
+			if k, isK := constInt(other); isK && k == 0 {
+				if (bo.Op == token.NEQ && g.True) || (bo.Op == token.EQL && !g.True) || (bo.Op == token.GTR && sameValue(bo.X, v) && g.True) {
+					return true
+				}
+			}
+		}
+		if phi, ok := v.(*ssa.Phi); ok {
+			for i, e := range phi.Edges {
+				if !positive(e, phi.Block().Preds[i], d+1) {
+					// the edge itself may carry the guard: pred ends in the If that tested e
+					okEdge := false
+					pred := phi.Block().Preds[i]
+					if ifi, isIf := pred.Instrs[len(pred.Instrs)-1].(*ssa.If); isIf {
+						if bo, isB := ifi.Cond.(*ssa.BinOp); isB && (sameValue(bo.X, e) || sameValue(bo.Y, e)) {
+							other := bo.Y
+							if sameValue(bo.Y, e) {
+								other = bo.X
+							}
+							if k, isK := constInt(other); isK && k == 0 {
+								takenTrue := pred.Succs[0] == phi.Block()
+								if (bo.Op == token.EQL && !takenTrue) || (bo.Op == token.NEQ && takenTrue) {
+									okEdge = true
+								}
+							}
+						}
+					}
+					if !okEdge {
+						return false
+					}
+				}
+			}
+			return true
+		}
+		return false
+	}
+	for _, fn := range c.PkgFuncs(pkg) {
+		forEachInstr(fn, false, func(f *ssa.Function, in ssa.Instruction) {
+			st, ok := in.(*ssa.Store)
+			if !ok {
+				return
+			}
+			tn, fld, _, okf := fieldAddrInfo(st.Addr)
+			if !okf || !strings.HasSuffix(tn, "healthcheck.healthChecker") || (fld != "healthyThreshold" && fld != "unhealthyThreshold") {
+				return
+			}
+			n++
+			c.Check("C16.R3", funcKey(f)+":"+fld+"-positive", st.Pos(), positive(st.Val, in.Block(), 0), "a positive constant, or non-zero on the edge it arrives by", "the "+fld+" of the health checker can be 0 (a configuration that omits it): the counter is incremented before it is compared with ==, so it never equals 0 and the host never changes state - it is marked neither unhealthy after failures nor healthy again after successes")
+		})
+	}
+	if n < 2 {
+		c.Unresolved("C16.R3", "stores to healthChecker.healthyThreshold / unhealthyThreshold")
+	}
 }
